@@ -174,6 +174,56 @@ async def _async_adapter_scenario(chunks: list[int], use_iterable: bool) -> tupl
     return verdict
 
 
+async def _async_adapter_lost_scenario(use_iterable: bool, after_eof: bool) -> tuple[bool, str]:
+    """The connection is already lost (the peer reset it and the event loop has noticed) when the send is issued: the bytes cannot be
+    transmitted, so the call must fail with a connection error - returning normally would mean they were dropped silently."""
+    import struct
+
+    from easynetwork.lowlevel.api_async.backend._asyncio.backend import AsyncIOBackend
+
+    srv = socket.socket()
+    srv.bind(("127.0.0.1", 0))
+    srv.listen(1)
+    a = socket.socket()
+    a.connect(srv.getsockname())
+    b, _ = srv.accept()
+    srv.close()
+    a.setblocking(False)
+    adapter = await AsyncIOBackend().wrap_stream_socket(a)
+    try:
+        await adapter.send_all(b"first")
+        if after_eof:
+            b.shutdown(socket.SHUT_WR)
+            await asyncio.sleep(0.05)
+        b.setsockopt(socket.SOL_SOCKET, socket.SO_LINGER, struct.pack("ii", 1, 0))
+        b.close()
+        await asyncio.sleep(0.1)  # connection_lost() has been delivered to the protocol
+        # the reading side confirms that the loss has been noticed
+        try:
+            await asyncio.wait_for(adapter.recv(10), 2)
+        except OSError:
+            pass
+        try:
+            if use_iterable:
+                await asyncio.wait_for(adapter.send_all_from_iterable([b"second", b"", b"part"]), 5)
+            else:
+                await asyncio.wait_for(adapter.send_all(b"second"), 5)
+        except ConnectionError:
+            return True, "connection error"
+        except asyncio.TimeoutError:
+            return False, "the send hangs on a lost connection"
+        except OSError as exc:
+            return True, f"OSError {exc.errno}"
+        except Exception as exc:  # noqa: BLE001
+            return False, f"the send failed with {type(exc).__name__}: {exc} - neither TimeoutError nor a connection error"
+        return False, "the send returned normally although the connection was lost before it started: the bytes were dropped"
+    finally:
+        try:
+            await asyncio.wait_for(adapter.aclose(), 3)
+        except Exception:  # noqa: BLE001
+            pass
+
+
 def run(chk: Check) -> None:
     quick = chk.tier == "quick"
     rng = random.Random(chk.seed)
@@ -216,9 +266,7 @@ def run(chk: Check) -> None:
         chk.violation(sig, f"send: not a behaviour of SendAll (event #{pos}: {failing}) -- {t['meta']}", {"kind": "sendall_trace", "trace": slim[idx], "meta": t["meta"]})
     # asynchronous adapter: exact wire content under kernel partial writes
     nasync = 0
-    for chunks in ([3, 1], [1, 0, 2], [0, 4, 0]) if quick else CHUNKSEQS:
-        if not sum(chunks):
-            continue
+    for chunks in ([3, 1], [1, 0, 2], [0, 4, 0], [0], [0, 0], []) if quick else list(CHUNKSEQS) + [[]]:
         for use_iter in (True, False):
             ok, detail = asyncio.run(_async_adapter_scenario(list(chunks), use_iter))
             nasync += 1
@@ -226,9 +274,21 @@ def run(chk: Check) -> None:
             chk.distinct.add(("async", tuple(chunks), use_iter))
             if not ok:
                 chk.violation(
-                    {"kind": "async_adapter", "api": "send_all_from_iterable" if use_iter else "send_all", "trailing_empty_chunk": chunks[-1] == 0, "what": "spin" if "spins" in detail else "wire"},
+                    {"kind": "async_adapter", "api": "send_all_from_iterable" if use_iter else "send_all", "trailing_empty_chunk": bool(chunks) and chunks[-1] == 0, "what": "spin" if "spins" in detail else "wire"},
                     f"asyncio adapter: wire differs from the packet's bytes for chunks {chunks} (x20000): {detail}",
                     {"kind": "async_adapter", "chunks": chunks, "iterable": use_iter},
+                )
+    for use_iter in (True, False):
+        for after_eof in (False, True):
+            ok, detail = asyncio.run(_async_adapter_lost_scenario(use_iter, after_eof))
+            nasync += 1
+            chk.traces += 1
+            chk.distinct.add(("async-lost", use_iter, after_eof))
+            if not ok:
+                chk.violation(
+                    {"kind": "async_adapter", "api": "send_all_from_iterable" if use_iter else "send_all", "what": "lost_connection"},
+                    f"asyncio adapter, connection already reset{' after the peer half-closed' if after_eof else ''}: {detail}",
+                    {"kind": "async_adapter_lost", "iterable": use_iter, "after_eof": after_eof},
                 )
     chk.extra["async_adapter_scenarios"] = nasync
     chk.evaluations = chk.traces
